@@ -134,8 +134,15 @@ def adversarial_c04(sd, n):
     for i in range(n):
         rng = family.rng_for(sd, "C14adv", i)
         vs = gen.VARS6[2:]
-        shape = i % 6
-        if shape == 0:
+        shape = i % 7
+        if shape == 6:
+            # a chain of eliminated variables that ends nowhere: x <= y, y <= z and nothing about z -- the recursion of tactic 4 comes back
+            # empty-handed from two levels down
+            sg = rng.choice([1, -1])
+            S = [({"x": sg, "w": rng.choice([1, -1])}, rng.randint(0, 4))]
+            ctx = [({"x": sg, "y": -sg}, 0), ({"y": sg, "z": -sg}, rng.choice([0, 1]))] + ([({"w": 1}, 3)] if rng.random() < 0.5 else [])
+            elim = ["x", "y", "z"]
+        elif shape == 0:
             S, ctx, elim = [], gen.rlist_raw(rng, vs, 0, 2), [rng.choice(vs)]
         elif shape == 1:
             S, ctx, elim = [({"x": rng.choice([1, -2])}, rng.randint(-3, 3))], [({"x": rng.choice([1, -1])}, 2)], ["x"]
@@ -153,7 +160,10 @@ def adversarial_c04(sd, n):
             ctx = gen.rlist_raw(rng, ["x", "y"], 1, 2)
             elim = ["x", "y"]
         cfgs = [(op, o, s) for op in ("refine", "relax") for o in c04.ORDERS for s in (False, True)]
-        cases.append({"id": 100000 + i, "S": S, "ctx": ctx, "elim": elim, "cfgs": rng.sample(cfgs, 8)})
+        picked = rng.sample(cfgs, 8)
+        if shape == 6:
+            picked = [("refine", [4], False), ("refine", [4], True), ("refine", [1, 2, 3, 4, 5], False), ("refine", [4, 1], True)] + picked[:4]
+        cases.append({"id": 100000 + i, "S": S, "ctx": ctx, "elim": elim, "cfgs": picked})
     return cases
 
 
